@@ -425,8 +425,12 @@ package unmarshal
 //@     modifies nothing
 //@   loop 2:
 //@     modifies nothing
-//@ func populateServiceNames
+// a span that names no service is stored under the name found for it (or the placeholder),
+// never under an empty one: that name is what the trace row and the tag row carry
+//@ func populateServiceNames [C06]
+//@   flag checks=-index,-assert
 //@   modifies span.Attributes
+//@   ensures unnamed-span-gets-the-local-name: isnil(old(getOtlpAttr(span.Attributes, "service.name"))) ==> len(span.Attributes) > old(len(span.Attributes)) && span.Attributes[old(len(span.Attributes))].Key == "service.name" && unbox(span.Attributes[old(len(span.Attributes))].Value.Value, "*v11.AnyValue_StringValue").StringValue != ""
 //@ func (*OTLPDecoder).Decode [C05,C06]
 //@   flag checks=-assert,-index
 //@   loop 4:
